@@ -68,7 +68,7 @@ let get_tabs () =
   | Some t -> t
   | None ->
     let gi = match !cur_gi with Some g -> g | None -> failwith "no grammar" in
-    let t = generate_tables gi in
+    let t = generate_tables_fast gi in   (* = generate_tables gi, Fast.generate_tables_fast_eq *)
     cur_tabs := Some t; t
 
 let dump_tables () =
@@ -102,6 +102,32 @@ let dump_tables () =
     Printf.printf "%s adef %s\n" id (String.concat " " (List.map (fun z -> show_action (decode_z nn z)) t.t_packed.p_adef));
     Printf.printf "%s gdef %s\n" id (String.concat " " (List.map (fun z -> show_action (decode_z nn z)) t.t_packed.p_gdef))
 
+(* the same for a grammar too large for the model's row displacement: everything up to the dense table (Fast.generate_dense,
+   proved equal to the corresponding fields of generate_tables) *)
+let dump_dense () =
+  let id = !cur_id in
+  let gi = match !cur_gi with Some g -> g | None -> failwith "no grammar" in
+  Printf.printf "%s nullable %s\n" id (ints (List.sort compare (List.map int_of_nat (nullable_list gi.gi_rules))));
+  match generate_dense gi with
+  | Inl (EUnproductive l) -> Printf.printf "%s error unproductive %s\n" id (ints (List.map int_of_nat l))
+  | Inl ETooManyStates -> Printf.printf "%s error toomanystates\n" id
+  | Inr t ->
+    let n = List.length t.dt_aut in
+    let nn = nat_of_int n in
+    Printf.printf "%s states %d\n" id n;
+    List.iteri (fun q s ->
+      Printf.printf "%s lr0 %d items %s gotos %s\n" id q
+        (String.concat " " (List.map (fun (r, d) -> Printf.sprintf "%d.%d" (int_of_nat r) (int_of_nat d)) s.items))
+        (String.concat " " (List.map (fun (x, q') -> Printf.sprintf "%d>%d" (int_of_nat x) (int_of_nat q')) s.gotos))) t.dt_aut;
+    List.iteri (fun q row ->
+      List.iter (fun (r, l) ->
+        Printf.printf "%s la %d %d : %s\n" id q (int_of_nat r) (ints (List.sort_uniq compare (List.map int_of_nat l)))) row) t.dt_la;
+    List.iteri (fun q row ->
+      Printf.printf "%s dense %d : %s\n" id q (String.concat " " (List.map (fun z -> show_action (decode_z nn z)) row))) t.dt_dense;
+    List.iter (fun ((q, a), (k1, k2)) ->
+      Printf.printf "%s warn %d %d %d %d\n" id (int_of_nat q) (int_of_nat a) (int_of_nat k1) (int_of_nat k2)) t.dt_warn;
+    Printf.printf "%s denseonly 1\n" id
+
 let read_input () =
   let n = next_int () in
   read_n n (fun () -> let s = next_int () in let v = next_int () in (nat_of_int s, z_of_int v))
@@ -130,6 +156,7 @@ let () =
                                           (z_of_int c, read_n k (fun () -> z_of_int (next_int ()))));
       loop ()
     | Some "T" -> dump_tables (); loop ()
+    | Some "TD" -> dump_dense (); loop ()
     | Some "X" ->
       (* X tag variant fuel n (sym val)*n *)
       let tag = (match next () with Some s -> s | None -> failwith "tag") in
@@ -294,7 +321,7 @@ let () =
       let id = (match next () with Some s -> s | None -> failwith "id") in
       let src = (match next () with Some s -> bytes_of_hex s | None -> failwith "eof") in
       cur_id := id; cur_tabs := None; cur_act := []; Hashtbl.reset memo; cur_gi := None;
-      (match generate_text src with
+      (match generate_text_fast src with   (* = generate_text src, EndToEndProofs.generate_text_fast_eq *)
        | GSyntax _ -> Printf.printf "%s e2e syntax\n" id
        | GFront _ -> Printf.printf "%s e2e front\n" id
        | GTooMany -> Printf.printf "%s e2e toomany\n" id
